@@ -466,6 +466,11 @@ func (ch c13) runRows(c *core.Ctx, env *hs.Env, rng *core.Rng, idx int) {
 		t.NoHeader = false
 		stream, _ = t.encode()
 	}
+	if t.Trailer && rng.Intn(5) == 0 {
+		// bytes behind the end-of-data trailer (padding a tool appends): not rows, and no reason not to end
+		stream = append(stream, rng.Bytes(1+rng.Intn(40))...)
+		c.Count("row_reader_streams_with_bytes_behind_the_trailer", 1)
+	}
 	term := core.Pick(rng, []string{"done", "fail", "fail", "query", "parse", "unknown"})
 	handler := core.Pick(rng, []string{"propagate", "propagate", "swallow"})
 	exec := rng.Intn(3) == 0
